@@ -85,6 +85,17 @@ func runC15(t *testing.T, c simrt.Chooser, o Opts) *Out {
 		sp := &socksPlan{salt: uint64(p.n("salt", 1<<30)), mix: []int{sbProxy, sbAuth, sbRefuse, sbCloseAfter, sbSilent}, latMax: p.dur("latmax", time.Microsecond, 50*time.Millisecond), connMax: 5 * time.Millisecond}
 		sc.Stalls = true // probe latencies are "stalls": only the lower bound applies
 		wd.tcp = sp.install
+		if p.pct("slowlist", 30) {
+			// the target list comes from a pipe whose writer pauses for many limiter intervals: the
+			// workers sit idle meanwhile; what may start back to back afterwards is the limiter's slack
+			per := w / time.Duration(n)
+			stallFor := (time.Duration(15+p.n("liststallx", 40)) * per).String()
+			if data, ok := wd.Files[targetsFn]; ok && len(data) > 2 {
+				wd.FileFault = map[string]FileFault{targetsFn: {ErrAt: -1, StallAt: 1 + p.n("liststallat", len(data)-1), StallFor: stallFor}}
+			} else if wd.Stdin != nil && len(*wd.Stdin) > 2 && s.FromStdin {
+				wd.FileFault = map[string]FileFault{"-": {ErrAt: -1, StallAt: 1 + p.n("liststallat", len(*wd.Stdin)-1), StallFor: stallFor}}
+			}
+		}
 		cancelled := false
 		if p.pct("cancel", 35) {
 			// Ctrl-C while workers wait for their turn at the limiter: what is started afterwards is
